@@ -64,6 +64,7 @@ type CaseA struct {
 	Addr  string            `json:"addr"`            // key | name | tag | tagopt | field
 	Pos   string            `json:"pos"`             // interp | expr | vif | attr | get
 	Decoy bool              `json:"decoy,omitempty"` // absent sources exist/are called, but define another key
+	Ext   string            `json:"ext,omitempty"`   // names of the data files: "" a.yml+b.yml | yaml+yml | yml+yaml | yaml+yaml | samestem (c.yaml+c.yml)
 }
 
 func (c CaseA) has(src string) bool {
@@ -85,6 +86,28 @@ func (c CaseA) key() string {
 	}
 	return "kv"
 }
+
+// dataNames returns the file names of the two data/ sources: "da" is always the one that sorts
+// first, "db" the one that sorts later. docs/data-loading.md: all .yml and .yaml files of data/
+// are loaded, in alphabetical order, later files overriding earlier ones - the extension plays
+// no role beyond being part of the name.
+func dataNames(ext string) (da, db string, err error) {
+	switch ext {
+	case "":
+		return "data/a.yml", "data/b.yml", nil
+	case "yaml+yml":
+		return "data/a.yaml", "data/b.yml", nil
+	case "yml+yaml":
+		return "data/a.yml", "data/b.yaml", nil
+	case "yaml+yaml":
+		return "data/a.yaml", "data/b.yaml", nil
+	case "samestem":
+		return "data/c.yaml", "data/c.yml", nil // "c.yaml" < "c.yml"
+	}
+	return "", "", fmt.Errorf("malformed case: ext %q", ext)
+}
+
+var exts = []string{"yaml+yml", "yml+yaml", "yaml+yaml", "samestem"}
 
 // winner is the reference model: the first present source in the documented order.
 func (c CaseA) winner() (string, vals.V, bool) {
@@ -463,7 +486,8 @@ func (c CaseA) files() map[string]string {
 		page = "---\nzother: decoyfm\n---\n"
 	}
 	f["page.vuego"] = page + c.body()
-	for _, sn := range [][2]string{{"da", "data/a.yml"}, {"db", "data/b.yml"}, {"theme", "theme.yml"}} {
+	daName, dbName, _ := dataNames(c.Ext)
+	for _, sn := range [][2]string{{"da", daName}, {"db", dbName}, {"theme", "theme.yml"}} {
 		src, name := sn[0], sn[1]
 		switch {
 		case c.has(src):
@@ -490,6 +514,9 @@ func checkA(c CaseA) error {
 		if (c.VType == "list" && len(v.L) != 2) || (c.VType == "map" && (v.M["x"].S == "" || v.M["only"+s].S == "")) {
 			return fmt.Errorf("malformed case: value of source %q does not have the shape of vtype %s", s, c.VType)
 		}
+	}
+	if _, _, err := dataNames(c.Ext); err != nil {
+		return err
 	}
 	k := c.key()
 	wsrc, wv, any := c.winner()
@@ -788,6 +815,15 @@ func enumA(f func(c CaseA, excluded string) bool) {
 								}
 							}
 						}
+						// mixed extensions among the data files (both define the key): the later NAME wins
+						if mask&(1<<3) != 0 && mask&(1<<4) != 0 {
+							for _, ext := range exts {
+								c := CaseA{Have: have, Vals: vs, VType: vt, Ctor: "newfs", Fill: fm[0], Addr: fm[1], Pos: pos, Ext: ext}
+								if !f(c, excludedA(known, c)) {
+									return
+								}
+							}
+						}
 						// zero values: Fill (or Assign) gives the key its zero value ("", 0, nil list,
 						// nil map; bool false is covered by the polarities above). The key is still
 						// defined by that source, so it still beats every lower source.
@@ -853,6 +889,14 @@ func classifyA(c CaseA) (bool, []string) {
 	}
 	if c.Decoy {
 		cls = append(cls, "decoy")
+	}
+	if c.Ext != "" {
+		cls = append(cls, "data-files="+c.Ext)
+		if w == "db" {
+			cls = append(cls, "data-files-differ-in-extension,later-name-wins")
+		}
+	} else {
+		cls = append(cls, "data-files=yml+yml")
 	}
 	for _, s := range []string{"fill", "assign"} {
 		if v, ok := c.Vals[s]; ok && c.has(s) && c.VType != "bool" && isZero(v) {
